@@ -200,9 +200,12 @@ func payloadKeyVal(e *entry.Entry) (string, string) {
 
 // C04: every single-field mutation of the wire form of valid entries of a generated
 // history, re-addressed or announced under the original's address, delivered as an
-// announced head or reachable as the ancestor of a genuine head.
+// announced head, reachable as the ancestor of a genuine head, found in the heads cache
+// or in the snapshot file after a restart.
 // Replicas: 0, 1 writers; 2 hostile (only serves blocks); 3 victim holding the whole
-// history; 4 victim holding a prefix.
+// history; 4 victim holding a prefix; 5 holds the whole history and is the usual victim of
+// the snapshot route: it never receives a colluder's entry (route ancestor), after which a
+// log cannot be reloaded from a snapshot at all (see c03.go).
 func runC04(r *Run) error {
 	defer closeEnv()
 	hists := 3
@@ -213,7 +216,13 @@ func runC04(r *Run) error {
 	types := []string{"eventlog", "keyvalue"}
 	for hi := 0; hi < hists; hi++ {
 		typ := types[hi%2]
-		s, err := NewScen(5, typ, &ScenOpts{Writers: []int{0, 1}})
+		// every third history on a database with the simple access controller (every opener passes
+		// the write list; see c03.go), the others with the default ipfs controller
+		acType := "ipfs"
+		if hi%3 == 2 {
+			acType = "simple"
+		}
+		s, err := NewScen(6, typ, &ScenOpts{Writers: []int{0, 1}, ACType: acType})
 		if err != nil {
 			return err
 		}
@@ -251,7 +260,7 @@ func runC04(r *Run) error {
 				return err
 			}
 		}
-		for _, pr := range [][2]int{{0, 1}, {1, 0}, {3, 0}, {3, 1}} {
+		for _, pr := range [][2]int{{0, 1}, {1, 0}, {3, 0}, {3, 1}, {5, 0}, {5, 1}} {
 			if err := s.SyncFrom(pr[0], pr[1]); err != nil {
 				return err
 			}
@@ -284,6 +293,9 @@ func runC04(r *Run) error {
 			e := suffix[ei]
 			suffix = append(suffix[:ei:ei], suffix[ei+1:]...)
 			w := writerOf(e)
+			// route snapshot: the mutant sits in the snapshot file a victim loads after a restart: as an
+			// extra entry frame, as an additional head of the header, or (mis-addressed only) in place
+			// of the genuine entry whose address it claims
 			deliver := func(name string, m *entry.Entry, signer, key, val string, unique, mis, resigned bool, claimed cid.Cid, route string) error {
 				// true address of the content; the presented entry carries the claimed one
 				tc, err := h.trueAddress(2, m)
@@ -310,10 +322,22 @@ func runC04(r *Run) error {
 				if mis || route == "ancestor" {
 					victim = 4
 				}
-				if resigned {
+				if resigned || route == "snapshot" {
+					// (a snapshot load fetches what it needs by itself, every time)
 					victim = 3 + r.Rng.Intn(2)
 				}
-				d := &hdelivery{route: route, victim: victim, from: 2, target: tn, tcid: tc, key: key, val: val}
+				if route == "snapshot" && r.Rng.Intn(3) > 0 {
+					victim = 5
+				}
+				d := &hdelivery{route: route, victim: victim, from: 2, target: tn, tcid: tc, key: key, val: val, uniqueVal: unique}
+				if route == "snapshot" {
+					vs := []string{"extra", "head"}
+					if mis {
+						vs = []string{"extra", "head", "replace", "replace"}
+					}
+					d.snapVariant = vs[r.Rng.Intn(len(vs))]
+					d.snapPreload = r.Rng.Intn(4) == 0
+				}
 				if route == "ancestor" {
 					c, err := h.colluder(0, pres)
 					if err != nil {
@@ -338,10 +362,18 @@ func runC04(r *Run) error {
 				extra["misaddressed"] = mis
 				extra["valid_by_construction"] = valid
 				extra["type"] = typ
+				extra["controller"] = s.ACType
 				extra["sig"] = c04Sig(strings.TrimSuffix(name, "+resigned"))
+				if route == "snapshot" {
+					// not the known message-route findings: what a snapshot file states is trusted
+					extra["sig"] = "snapshot/" + c04Sig(strings.TrimSuffix(name, "+resigned"))
+				}
 				ctor := "CMut"
-				if route == "cache" {
+				switch route {
+				case "cache":
 					ctor = "CMutCached"
+				case "snapshot":
+					ctor = "CMutSnapshot"
 				}
 				r.AddCase(fmt.Sprintf("(%s %s %v)", ctor, term, mis), extra, true)
 				r.Count("mutation:" + name)
@@ -373,6 +405,8 @@ func runC04(r *Run) error {
 					route = "ancestor"
 				} else if r.Rng.Intn(4) == 0 {
 					route = "cache" // found in the heads cache by Load after a restart
+				} else if r.Rng.Intn(6) == 0 {
+					route = "snapshot" // found in the snapshot file by LoadFromSnapshot after a restart
 				}
 				if err := deliver(name, f, signer, key, val, unique, false, m.resigned, cid.Undef, route); err != nil {
 					return err
@@ -394,10 +428,40 @@ func runC04(r *Run) error {
 						return err
 					}
 					if g != nil {
-						if err := deliver(name, g, signer2, key2, val2, unique2, true, false, e.Hash, "sync"); err != nil {
+						misRoute := "sync"
+						if r.Rng.Intn(4) == 0 {
+							misRoute = "snapshot"
+						}
+						if err := deliver(name, g, signer2, key2, val2, unique2, true, false, e.Hash, misRoute); err != nil {
 							return err
 						}
 					}
+				}
+			}
+			// equivocation inside a snapshot: ANOTHER VALID entry of the same writer (a re-signed
+			// mutation of e) stated under e's address
+			{
+				var rs []mutation
+				for _, m := range c04Mutations {
+					if m.resigned && m.name != "log id" {
+						rs = append(rs, m)
+					}
+				}
+				m := rs[r.Rng.Intn(len(rs))]
+				other := (w + 1 + r.Rng.Intn(2)) % 3
+				if other == w {
+					other = 2
+				}
+				f, signer, key, val, unique, err := h.mutate(m, e, pool, w, other)
+				if err != nil {
+					return err
+				}
+				if f != nil {
+					if err := deliver(m.name+"+resigned", f, signer, key, val, unique, true, true, e.Hash, "snapshot"); err != nil {
+						return err
+					}
+				} else {
+					r.Count("skipped:" + m.name + "+resigned@snapshot")
 				}
 			}
 			// claimed hash: the untouched content announced under another entry's address
@@ -412,9 +476,14 @@ func runC04(r *Run) error {
 				if err := deliver("claimed hash", clone(e), "", k2, v2, false, true, false, others[r.Rng.Intn(len(others))].GetHash(), "sync"); err != nil {
 					return err
 				}
+				// ... and stated under another entry's address in a snapshot file
+				if err := deliver("claimed hash", clone(e), "", k2, v2, false, true, false, others[r.Rng.Intn(len(others))].GetHash(), "snapshot"); err != nil {
+					return err
+				}
 			}
 		}
 		r.Count("type=" + typ)
+		r.Count("controller=" + s.ACType)
 		r.Pre = append(r.Pre, u.Def())
 		s.Settle()
 		s.Close()
